@@ -15,13 +15,16 @@ def main():
     os.makedirs(outdir, exist_ok=True)
     astfn = os.path.join(outdir, unit + '.ast.json')
     t0 = time.time()
-    cmd = ['clang++', '-std=' + cfg.get('std', 'c++11'), '-I' + repo + '/include', '-fsyntax-only', '-Wno-everything', '-fgnuc-version=5.4.0',
-           '-Xclang', '-ast-dump=json', '-Xclang', '-ast-dump-filter=' + cfg['filter'], os.path.join(here, cfg['tu'])]
-    with open(astfn, 'w') as f:
-        r = subprocess.run(cmd, stdout=f, stderr=subprocess.PIPE, text=True)
-    if r.returncode != 0:
-        print('ERROR extraction: clang failed on the instantiation TU:\n' + r.stderr[-3000:]); sys.exit(2)
-    docs = cxx2c.load_docs(astfn)
+    filters = cfg['filter'] if isinstance(cfg['filter'], list) else [cfg['filter']]
+    docs = []
+    for flt in filters:
+        cmd = ['clang++', '-std=' + cfg.get('std', 'c++11'), '-I' + repo + '/include', '-fsyntax-only', '-Wno-everything', '-fgnuc-version=5.4.0',
+               '-Xclang', '-ast-dump=json', '-Xclang', '-ast-dump-filter=' + flt, os.path.join(here, cfg['tu'])]
+        with open(astfn, 'w') as f:
+            r = subprocess.run(cmd, stdout=f, stderr=subprocess.PIPE, text=True)
+        if r.returncode != 0:
+            print('ERROR extraction: clang failed on the instantiation TU:\n' + r.stderr[-3000:]); sys.exit(2)
+        docs += cxx2c.load_docs(astfn, prefix='D%d:' % len(docs))
     tr = cxx2c.Translator(docs, cfg)
     roots = []
     try:
@@ -34,17 +37,32 @@ def main():
             tr.cnames.setdefault(q, q)
         for extra in cfg.get('extra_roots', []):
             k2, n2, q2 = extra
-            ds = [d for d in docs if d.get('kind') == k2 and d.get('name') == n2]
-            if not ds: raise cxx2c.Unsupported(f'root record {n2} not found in AST dump')
+            ds = []
+            def walk(n):
+                if isinstance(n, dict):
+                    if n.get('kind') == k2 and n.get('name') == n2 and n.get('completeDefinition') and tr_match(n, q2): ds.append(n)
+                    for c in n.get('inner', []): walk(c)
+            def tr_match(n, q2):
+                # match template arguments against the requested specialisation name
+                targs = [a.get('type', {}).get('qualType', '') for a in n.get('inner', []) if a.get('kind') == 'TemplateArgument']
+                want = q2[q2.index('<') + 1:q2.rindex('>')] if '<' in q2 else ''
+                got = ', '.join(cxx2c.strip_ns(a) for a in targs)
+                return (not want) or want == got
+            for d in docs: walk(d)
+            if not ds: raise cxx2c.Unsupported(f'root record {q2} not found in AST dump')
             tr.register_record(ds[-1], q2)
         for q in list(tr.records):
-            tr.emit_struct(q)
+            try:
+                tr.emit_struct(q)
+            except cxx2c.Unsupported as ex:
+                if '--survey' in sys.argv: print('SURVEY struct', q, ex)
+                else: raise
         want = cfg.get('functions')
         for q, rec in list(tr.records.items()):
             for c in rec.get('inner', []):
                 k = c.get('kind')
                 if k in ('CXXMethodDecl', 'CXXConstructorDecl', 'CXXDestructorDecl') and tr.has_body(c) and not c.get('isImplicit'):
-                    if want is None or c.get('name') in want: roots.append(c)
+                    if (want is None or c.get('name') in want) and c.get('name') not in cfg.get('skip_functions', []): roots.append(c)
                 if k == 'FunctionTemplateDecl':
                     for x in c.get('inner', []):
                         if x.get('kind') == 'CXXMethodDecl' and tr.has_body(x):
@@ -52,7 +70,11 @@ def main():
                             if any('(lambda at ' + repo in a for a in targs):
                                 continue   # instantiated on a library-internal lambda: emitted when its caller is
                             if want is None or x.get('name') in want: roots.append(x)
-        tr.run(roots)
+        tr.run(roots, survey='--survey' in sys.argv)
+        if tr.errors:
+            print('SURVEY: %d functions with unsupported constructs' % len(tr.errors))
+            for x in tr.errors: print('  ' + x)
+            sys.exit(2)
     except cxx2c.Unsupported as e:
         print(f'ERROR extraction: unit {unit}: {e}'); sys.exit(2)
     text = tr.output(cfg.get('includes', ['prims.h']))
